@@ -11,7 +11,12 @@ Search oracle: (a) an independent Python statement of "stable sort by first matc
   independent reader sqimg.py: pack order, data start offsets, per-block compressed bits / sparse words,
   fragment references, fragment-block compression, sharing with earlier files, export table; contents
   and tree read back with rdsquashfs and compared with the input and with an image packed without
-  directives."""
+  directives.
+Tie 3 (exact) + component oracle: flagleg.py -- extracted FlagModel.tool_pack (pack_flags + C08's block
+  processor / block writer model, the function the "directive effects" theorems are about) vs the working
+  tree's block processor + block writer driven by props/C08/h_dedup.c on generated (flag word, content)
+  lists: per file block start, size words, fragment reference; fragment table; output bytes.  The
+  statements of the theorems are also evaluated directly on the harness output."""
 import ctypes
 import glob as globmod
 import json
@@ -29,6 +34,7 @@ from vlib import core
 HERE = os.path.dirname(os.path.abspath(__file__))
 sys.path.insert(0, HERE)
 import sqimg  # noqa: E402
+import flagleg  # noqa: E402
 
 LEVEL = "proof"
 ENV = dict(os.environ, ASAN_OPTIONS="detect_leaks=0", LC_ALL="C")
@@ -1037,6 +1043,9 @@ def run(ctx):
         "props/C17/sqimg.py: independent Python reader of SquashFS images (gzip only) used as layout decoder; cross-checked "
         "against rdsquashfs -s on one file per image",
         "props/C17/gen_c17.c: translator /repo headers -> coq/C17/GenC17.v (SQFS_BLK_* bits)",
+        "props/C17/flagleg.py + driver_flags.ml (case generation, parsing, the Python restatement of the directive theorems); "
+        "props/C08/h_dedup.c + weakhash.c (in-memory sqfs_file_t, toy compressor / checksum, implemented twice: Gallina and C); "
+        "the one-line Python statement of pack_file used to apply -T on the C side of the component leg",
         "the independent Python statement of the sort-file semantics (py_parse_simple/py_expected) covers only lines of "
         "the simple grammar (decimal priority, optional flag list without quotes, unquoted name)",
     ]
@@ -1044,7 +1053,9 @@ def run(ctx):
         "first_match_wins assumes distinct canonical paths in the file list (true for the nodes of one fstree) and that "
         "fstree_get_path output canonicalises (no '..' component; names are checked by fstree_add_generic)",
         "ctype classification is that of the C locale (no tool calls setlocale); sort files contain no NUL byte",
-        "per-flag on-disk effects are checked at tool level only (block processor is modelled under C02/C08)",
+        "directive theorems: compressor contract of sqfs/compressor.h (C03/F07 check the real back ends), the pool hands "
+        "work back in submission order (C09), no I/O or allocation failure, no 32/64-bit wrap (offsets are unbounded nat); "
+        "dont_compress fragment clause: the tail end's fragment reference is not that of an earlier file (else F23)",
     ]
     work = os.path.join(ctx.scratch, "tool")
     os.makedirs(work, exist_ok=True)
@@ -1064,6 +1075,10 @@ def run(ctx):
         elif kind == "tar":
             for sig, what in tar_tool_check(ctx, info, work):
                 ctx.violation(sig, what, dict(kind="tar"))
+        elif kind == "flags":
+            fres = flagleg.run_leg(ctx, [flagleg.case_of_replay(rp)])
+            flagleg.report(ctx, fres, seen)
+            ctx.coverage["evaluations"] = 1
         elif kind == "pack":
             cases = [tuple(rp["case"])]
             bad = tie_pack(ctx, h_pg, h_pt, drv, cases)
@@ -1074,9 +1089,12 @@ def run(ctx):
         return
 
     quick = ctx.tier == "quick"
-    if not quick and not ctx.proof_broken:
+    core_chk = ctx.coverage.get("coqchk") if isinstance(ctx.coverage.get("coqchk"), dict) else None
+    if not quick and not ctx.proof_broken and not (core_chk and core_chk.get("rc") == 0):
+        # (vlib.core.prepare_proofs already runs coqchk in the thorough tier; with the Image closure one run
+        # takes ~8 min, so it is not repeated here unless core skipped it)
         with core.Lock("coq"):
-            rc, out = core.sh(["timeout", "900", "coqchk", "-silent", "-o", "-Q", ".", "SqfsV", "SqfsV.Properties_C17"], cwd=core.COQ)
+            rc, out = core.sh(["timeout", "1800", "coqchk", "-silent", "-o", "-Q", ".", "SqfsV", "SqfsV.Properties_C17"], cwd=core.COQ)
         ok = rc == 0 and "Axioms: <none>" in out
         ctx.coverage["coqchk"] = dict(rc=rc, axioms_none=("Axioms: <none>" in out))
         if not ok:
@@ -1092,6 +1110,22 @@ def run(ctx):
     bad = tie_pack(ctx, h_pg, h_pt, drv, pcases)
     ctx.log("pack_flags tie: %d cases x 2 functions, mismatches %d" % (len(pcases), len(bad)))
     tie_broken |= bool(bad)
+    # ---- tie 3 + component oracle: directive effects on the real block processor / block writer ----
+    n_flag = 1500 if quick else 40000
+    if tie_broken or ctx.proof_broken:
+        n_flag *= 3
+    fcases = flagleg.gen_cases(ctx.seed, n_flag)
+    fres = flagleg.run_leg(ctx, fcases)
+    fst = fres["stats"]
+    ctx.log("flags leg: %d cases, tie mismatches %d, directive violations %d (F23 instances seen: %d)"
+            % (fst["cases"], len(fres["tie_bad"]), len(fres["prop_bad"]), fst["f23_instances"]))
+    flagleg.report(ctx, fres, seen)
+    tie_broken |= bool(fres["tie_bad"] or fres["crash"] or fres["prop_bad"])
+    ctx.coverage["evaluations"] += fst["cases"]
+    ctx.coverage["traces_validated_against_impl"] += fst["tied"]
+    ctx.coverage["distinct_nontrivial"] += fst["with_directive"]
+    ctx.coverage.setdefault("distribution", {})["flags_leg"] = dict(fst)
+    ctx.add_samples(fres["samples"])
     # ---- tool-level oracle (always; more when something broke) ----
     n_tool = 60 if quick else 1500
     if tie_broken or ctx.proof_broken:
@@ -1130,7 +1164,11 @@ def run(ctx):
         "words + random; tool oracle: directed images per directive + seeded random trees (text/random/zero/holes/duplicate/"
         "same-tail contents, sizes around multiples of the block size) x sort file x -T x -e x -b x -j; seed %d; "
         "non-trivial = accepted sort file that changed some file's priority or flags / -T case with size > block size / "
-        "every image" % ctx.seed)
+        "every image; flags leg: one directed family per case split of the directive proofs (dont_compress tail opening / "
+        "joining / after flush of a fragment block, F23, dont_fragment at sizes around k*block, all-zero blocks / tails / "
+        "fragment block, duplicates with dont_deduplicate, self-overlapping runs, -T around one block) x -T x 2 checksum "
+        "moduli + seeded random lists (block size 8..64, pool of zero / run-length / random blocks and tails, duplicates, "
+        "flag subsets)" % ctx.seed)
 
 
 def finish_sort(ctx, info, t, work, seen, search):
@@ -1185,3 +1223,4 @@ def finish_pack(ctx, bad, concrete=False):
 
 def setup():
     core.build_model_driver("C17", "ExtractC17.v", os.path.join(HERE, "driver.ml"), stubs_c=os.path.join(HERE, "stubs.c"))
+    flagleg.model_driver()
